@@ -105,6 +105,7 @@ type c12Plan struct {
 	W       []string   // sequential result of writer step k
 	A       [][]string // A[k][q]
 	trouble string
+	hang    string // a call on the private shadow instance, run alone, did not return
 }
 
 func c12NewForest(c *C12Case, park *c12Exec) *u.MapPollard {
@@ -299,7 +300,8 @@ func buildPlan(c *C12Case) *c12Plan {
 	evalPool := func() []string {
 		out := make([]string, len(p.queries))
 		for i, q := range p.queries {
-			out[i] = execQuery(shadow, q, nil)
+			q := q
+			out[i] = shadowWD(p, "query "+q.kind, func() string { return execQuery(shadow, q, nil) })
 		}
 		return out
 	}
@@ -309,7 +311,8 @@ func buildPlan(c *C12Case) *c12Plan {
 		for qi := range p.queries {
 			q := &p.queries[qi]
 			if q.kind == "vpartial" && int(q.pos) == k {
-				miss := shadow.GetMissingPositions(q.targets)
+				var miss []uint64
+				shadowWD(p, "GetMissingPositions", func() string { miss = shadow.GetMissingPositions(q.targets); return "" })
 				L := p.states[k].Layout()
 				q.phashes = nil
 				for _, mp := range miss {
@@ -321,7 +324,8 @@ func buildPlan(c *C12Case) *c12Plan {
 		if k == K {
 			break
 		}
-		p.W = append(p.W, execWriter(shadow, wops[k], nil))
+		co := wops[k]
+		p.W = append(p.W, shadowWD(p, "writer step "+co.kind, func() string { return execWriter(shadow, co, nil) }))
 	}
 	// second sequential pass with all arguments fixed: fresh shadow
 	shadow = c12NewForest(c, nil)
@@ -331,8 +335,9 @@ func buildPlan(c *C12Case) *c12Plan {
 	p.A = p.A[:0]
 	p.W = p.W[:0]
 	p.A = append(p.A, evalPool())
-	for k := 0; k < K; k++ {
-		p.W = append(p.W, execWriter(shadow, wops[k], nil))
+	for k := 0; k < K && p.hang == ""; k++ {
+		co := wops[k]
+		p.W = append(p.W, shadowWD(p, "writer step "+co.kind+" (after the query pool was evaluated on the same instance)", func() string { return execWriter(shadow, co, nil) }))
 		p.A = append(p.A, evalPool())
 	}
 	p.wops = append(setupOps, wops...)
@@ -360,7 +365,7 @@ func (p *c12Plan) resolveQuery(q C12Op, K int) c12Concrete {
 		if q.Kind == "leafposs" && len(q.Picks) > 0 && q.Picks[0]%3 == 0 {
 			co.hashes = append(co.hashes, c12Leaf(p.c.Seed^0xdead, 1))
 		}
-	case "verify":
+	case "verify", "verifyrem":
 		co.hashes = pickFrom(live, q.Picks)
 		co.proof, _ = st.Layout().CanonProof(co.hashes)
 	case "vpartial":
@@ -455,6 +460,26 @@ func errStr(err error, panicked bool) string {
 	return "ok"
 }
 
+// shadowWD runs one call of the sequential (shadow) execution under a
+// watchdog: the shadow runs alone, so a call that does not return is a
+// deadlock of the library with itself (for example a lock leaked by an
+// earlier call).  The stuck goroutine is abandoned; the worker retires.
+func shadowWD(p *c12Plan, what string, f func() string) string {
+	if p.hang != "" {
+		return "hang"
+	}
+	ch := make(chan string, 1)
+	go func() { ch <- f() }()
+	select {
+	case r := <-ch:
+		return r
+	case <-time.After(8 * time.Second):
+		p.hang = what
+		hungWorker = true
+		return "hang"
+	}
+}
+
 func execWriter(m *u.MapPollard, co c12Concrete, e *c12Exec) string {
 	var err error
 	var pan bool
@@ -501,6 +526,10 @@ func execQuery(m *u.MapPollard, q c12Concrete, e *c12Exec) string {
 			out = fmt.Sprintf("%v:%v:%s", err != nil, pr.Targets, hexs(pr.Proof))
 		case "verify":
 			err := m.Verify(q.hashes, q.proof, false)
+			out = fmt.Sprint(err != nil)
+		case "verifyrem":
+			// only issued on full forests, where remembering changes nothing
+			err := m.Verify(q.hashes, q.proof, true)
 			out = fmt.Sprint(err != nil)
 		case "vpartial":
 			err := m.VerifyPartialProof(q.targets, q.hashes, q.phashes, false)
@@ -1187,6 +1216,11 @@ func genC12(seed uint64) *C12Case {
 		}
 	}
 	kinds := c12Queries()
+	if c.Full {
+		// a full forest already remembers everything: a remembering Verify from a
+		// query goroutine is a pure query there and may run beside the writer
+		kinds = append(kinds, "verifyrem", "verifyrem")
+	}
 	nP := 6 + r.Intn(10)
 	for i := 0; i < nP; i++ {
 		k := kinds[r.Intn(len(kinds))]
@@ -1300,6 +1334,9 @@ func (e *c12Engine) Run(seed uint64, f *Findings) *CaseResult {
 	}
 	c := genC12(seed)
 	plan := buildPlan(c)
+	if plan.hang != "" {
+		return e.seqHang(c, plan, f)
+	}
 	if plan.trouble != "" {
 		return &CaseResult{Stats: NewStats(), Case: c, Digest: mix64(seed)}
 	}
@@ -1332,8 +1369,23 @@ func (e *c12Engine) finish(c *C12Case, ex *c12Exec, f *Findings) *CaseResult {
 	return cr
 }
 
+// seqHang: the sequential shadow run itself got stuck.
+func (e *c12Engine) seqHang(c *C12Case, plan *c12Plan, f *Findings) *CaseResult {
+	v := Violation{Property: "C12", Class: "deadlock:sequential", Detail: "a single caller, with nobody else using the forest, got stuck in " + plan.hang + ": a call did not return within 8 s (a lock left behind by an earlier call?)"}
+	cr := &CaseResult{Stats: NewStats(), Case: c, NonTrivial: true, Digest: mix64(c.Seed)}
+	if f != nil && f.Matches(v) {
+		cr.Stats.Known["C12:"+v.Class]++
+	} else {
+		cr.Violations = []Violation{v}
+	}
+	return cr
+}
+
 func (e *c12Engine) runCase(c *C12Case, f *Findings, trace bool) (*CaseResult, []string) {
 	plan := buildPlan(c)
+	if plan.hang != "" {
+		return e.seqHang(c, plan, f), []string{"sequential run stuck in " + plan.hang}
+	}
 	if plan.trouble != "" {
 		return &CaseResult{Stats: NewStats(), Case: c}, []string{"plan: " + plan.trouble}
 	}
@@ -1382,7 +1434,7 @@ func (e *c12Engine) fails(c *C12Case, class string, f *Findings) bool {
 // blocks and the pick list, keeping the same violation class.
 func (e *c12Engine) Minimize(ci interface{}, class string, f *Findings, budget time.Duration) interface{} {
 	best := ci.(*C12Case).clone()
-	if class == "hang" || hungWorker {
+	if class == "hang" || class == "deadlock:sequential" || hungWorker {
 		return best
 	}
 	deadline := time.Now().Add(budget)
